@@ -4,7 +4,7 @@
    One model replica per persist bit; every replica starts from the empty enforcer over an empty
    adapter.  For every step k >= K and replica i prints, like harness/c19.go:
      ID <TAB> k.i.res | k.i.adlog | k.i.adcontent | k.i.listed | k.i.links.<pt> | k.i.dec <TAB> value
-   or, with (digest 1), the single line ID <TAB> k.i.all <TAB> MD5 of these values joined by newlines. *)
+   or, with (digest 1), ONE line per case: ID <TAB> all <TAB> MD5 over "k.i." and these values, newline-terminated. *)
 open Common
 open Machine
 open Dist
@@ -105,6 +105,7 @@ let () =
           | [pt; names; doms] -> (Sx.atom pt, Sx.atoms names, Sx.atoms doms) | _ -> failwith "bad links") links in
         let nrep = match ops with o :: _ -> Stdlib.List.length (Sx.list o) - 1 | [] -> 0 in
         let reps = Array.init nrep (fun _ -> init_state cfg false false WNone []) in
+        let acc = Buffer.create 1024 in
         Stdlib.List.iteri (fun k entry ->
           match Sx.list entry with
           | opx :: bits ->
@@ -121,9 +122,9 @@ let () =
                   let adlog = Stdlib.String.concat " ; " (Stdlib.List.map acall_str (drop seen s'.ad.alog)) in
                   let lks = Stdlib.List.map (fun (pt, names, doms) -> (pt, links_key s' pt names doms)) links in
                   if digest then
-                    out "all" (Digest.to_hex (Digest.string (Stdlib.String.concat "\n"
-                      ([res; adlog; content_key s'.ad.content; listed_key (listed cfg s')]
-                       @ Stdlib.List.map snd lks @ [decisions kind s' reqs]))))
+                    Buffer.add_string acc (Stdlib.String.concat "\n"
+                      ([Printf.sprintf "%d.%d." k i; res; adlog; content_key s'.ad.content; listed_key (listed cfg s')]
+                       @ Stdlib.List.map snd lks @ [decisions kind s' reqs]) ^ "\n")
                   else begin
                     out "res" res;
                     out "adlog" adlog;
@@ -133,5 +134,6 @@ let () =
                     out "dec" (decisions kind s' reqs)
                   end
                 end) bits
-          | [] -> failwith "bad log entry") ops
+          | [] -> failwith "bad log entry") ops;
+        if digest then Printf.printf "%s\tall\t%s\n" id (Digest.to_hex (Digest.string (Buffer.contents acc)))
     | _ -> failwith "bad case")
